@@ -83,8 +83,8 @@ def op_rename_property(s, old, new):
 def _move(seq, name, index):
     if name not in seq:
         raise Reject('unknown name')
-    if not 0 <= index < len(seq):
-        raise Open('index outside 0..len-1')
+    # plain list semantics: take the name out, insert it at the index (Python's
+    # list.insert defines every integer index, negative and out of range too)
     rest = [x for x in seq if x != name]
     rest.insert(index, name)
     return tuple(rest)
@@ -272,15 +272,19 @@ def alphabet(state, onames, pnames, pool=()):
             if old != new:
                 yield ('rename_property', old, new)
     for o in onames:
-        for i in range(max(1, len(objs))):
+        for i in range(-len(objs) - 1, len(objs) + 2):
             if o in objs or i == 0:
                 yield ('move_object', o, i)
     for p in pnames:
-        for i in range(max(1, len(props))):
+        for i in range(-len(props) - 1, len(props) + 2):
             if p in props or i == 0:
                 yield ('move_property', p, i)
     pseqs = list(ordered_subsets(pnames)) + [(pnames[0], pnames[0])]
     oseqs = list(ordered_subsets(onames)) + [(onames[0], onames[0])]
+    if len(pnames) > 1:     # a repeated name among two distinct ones, both orders
+        pseqs += [(pnames[0], pnames[1], pnames[0]), (pnames[1], pnames[0], pnames[1], pnames[0])]
+    if len(onames) > 1:
+        oseqs += [(onames[0], onames[1], onames[0]), (onames[1], onames[0], onames[1], onames[0])]
     for o in onames:
         for seq in pseqs:
             yield ('add_object', o, seq)
@@ -312,6 +316,7 @@ def selftest():
         pass
     assert len(list(all_states(('a', 'b'), ('x', 'y')))) == 113
     assert len(list(all_states(('a', 'b', 'c'), ('x', 'y')))) == 1160
+    assert _move(('a', 'b', 'c'), 'c', -1) == ('a', 'c', 'b') and _move(('a', 'b'), 'a', 5) == ('b', 'a')
     t = from_triple(('a',), ('x',), [(False,)])
     assert conflicts(s, t) == [('a', 'x')]
     assert transposed(transposed(s)) == s and inverted(inverted(s)) == s
